@@ -202,6 +202,25 @@ func c10Record(tier string, seed int64, emit func(interface{})) {
 			break
 		}
 	}
+	// the same cassette twice in one part (unit + unit): two textually identical fragments are two fragments
+	for _, name := range names {
+		e := builtinEnzymes[name]
+		for {
+			unit := randDNA(rng, 4+rng.Intn(10)) + e.Site + randDNA(rng, e.Skip) + randDNA(rng, e.Ovh) + randDNA(rng, 6+rng.Intn(12)) +
+				randDNA(rng, e.Ovh) + randDNA(rng, e.Skip) + e.Rsite + randDNA(rng, 4+rng.Intn(10))
+			p := unit + unit
+			if countSites(p, e, true) != 4 {
+				continue
+			}
+			g++
+			cut(e, name, p, false)
+			g++
+			for r := 0; r < len(p); r += 1 + len(p)/40 {
+				cut(e, name, p[r:]+p[:r], true)
+			}
+			break
+		}
+	}
 	for i := 0; i < nLayouts; i++ {
 		var e specEnzyme
 		name := ""
